@@ -10,6 +10,7 @@ repo = sys.argv[1] if len(sys.argv) > 1 else "/repo"
 out = "/tmp/baseline_%d.xml" % os.getpid()
 env = dict(os.environ)
 env.pop("PENDULUM_VERIF_TRACE", None)
+env["PYTHONPATH"] = repo + "/src"
 subprocess.run(["/venv/bin/python", "-m", "pytest", "-ra", "-q", "-p", "no:cacheprovider", "--timeout=900",
                 "--continue-on-collection-errors", "--junitxml=" + out], cwd=repo, env=env,
                stdout=subprocess.DEVNULL, stderr=subprocess.DEVNULL)
